@@ -222,6 +222,43 @@ fn cases() -> Vec<Case> {
             });
         }
     }
+    // the same for frames no selium compressor would produce: an lz4 frame of several 64 KiB blocks that fails after its first
+    // blocks were decoded, or whose content checksum is wrong, followed by an honest frame
+    for variant in 0..3usize {
+        out.push(Case {
+            name: format!("lz4: a multi-block frame that fails late (variant {variant}) is decompressed, then a good one"),
+            props: "C14",
+            run: Box::new(move || {
+                use std::io::Write;
+                let data = payloads().swap_remove(6).1; // 300000 pseudo-random bytes
+                let mut info = lz4_flex::frame::FrameInfo::new();
+                info.block_size = lz4_flex::frame::BlockSize::Max64KB;
+                info.content_checksum = true;
+                let mut enc = lz4_flex::frame::FrameEncoder::with_frame_info(info, Vec::new());
+                enc.write_all(&data).map_err(|e| format!("{e:?}"))?;
+                let mut frame = enc.finish().map_err(|e| format!("{e:?}"))?;
+                match variant {
+                    0 => frame.truncate(frame.len() * 2 / 3),
+                    1 => {
+                        let n = frame.len();
+                        frame[n - 1] ^= 0xff; // content checksum
+                    }
+                    _ => {
+                        let n = frame.len();
+                        frame[n - 70_000] ^= 0x55; // inside a late block
+                    }
+                }
+                let _ = lz4::Lz4Decomp.decompress(Bytes::from(frame));
+                let good = b"fourteen bytes".to_vec();
+                let c = lz4::Lz4Comp.compress(Bytes::from(good.clone())).map_err(|e| format!("{e:?}"))?;
+                let d = lz4::Lz4Decomp.decompress(c).map_err(|e| format!("good frame refused after a failed call: {e:?}"))?;
+                if d[..] != good[..] {
+                    return Err(format!("after a failed call, the next round trip returned {} bytes instead of the {} put in", d.len(), good.len()));
+                }
+                Ok(())
+            }),
+        });
+    }
     // C14: codecs
     for s in ["", "a", "héllo wörld", "\u{1F600}\u{200d}\u{0301}", &"x".repeat(1 << 20), "line\nbreak\0nul"] {
         let s = s.to_string();
